@@ -13,6 +13,15 @@ Proof.
     + apply IH; [exact Ht|]. intros H. apply Hni. right. exact H.
 Qed.
 
+Lemma NoDup_app_intro {X} (l1 l2 : list X) :
+  NoDup l1 -> NoDup l2 -> (forall x, In x l1 -> In x l2 -> False) -> NoDup (l1 ++ l2).
+Proof.
+  induction l1 as [|h t IH]; simpl; intros H1 H2 Hd; [exact H2|].
+  inversion H1 as [|? ? Hh Ht]; subst. constructor.
+  - rewrite in_app_iff. intros [H|H]; [contradiction|]. apply (Hd h); [left; reflexivity|exact H].
+  - apply IH; [exact Ht|exact H2|]. intros x Hx1 Hx2. apply (Hd x); [right; exact Hx1|exact Hx2].
+Qed.
+
 Section AMapOk.
   Context {K V : Type}.
   Variable keqb : K -> K -> bool.
